@@ -128,6 +128,40 @@ def run(ctx: vlib.Ctx):
                           "observed": obs, "expected": "ok:" + gen.py_src(exp)}, {"kind": "encode-ref"})
         fam.dispose()
 
+    # namedtuple_as_dict (dialect option, or Config option of a holder dataclass): a NamedTuple is packed as a dict of ALL its items in field order
+    ref.NT_AS_DICT = True
+    try:
+        for fam, ns, t, ty, dia in tyoracle.as_dict_stream(ctx.rng, ctx.budget(40, 250)):
+            try:
+                enc = BasicEncoder(ty, **({"default_dialect": dia} if dia else {}))
+            except Exception as e:
+                ctx.fail(f"as_dict BasicEncoder({gen.py_ann(t)}) cannot be built: {type(e).__name__}: {e}",
+                         {"entry": "codec_build", "source": fam.source(), "type": gen.py_ann(t), "expected": "ok"}, {"kind": "encoder-build"})
+                continue
+            vg = gen.ValueGen(ctx.rng, fam)
+            for _ in range(3):
+                v = vg.value(t)
+                ctx.count((t.key(), "as_dict", repr(v)))
+                ctx.hist("as_dict_root", t.kind if dia else "config")
+                exp = ref.ref_encode(t, v, fam, ns)
+                what = None
+                try:
+                    got = enc.encode(v)
+                    obs = "ok:" + gen.py_src(got)
+                    if not gen.same_ordered(got, exp):
+                        what = f"as_dict encode differs from the reference: {gen.py_src(got)[:200]} vs {gen.py_src(exp)[:200]}"
+                    elif not gen.is_basic(got):
+                        what = "as_dict result is not made of str/int/float/bool/None/list/dict"
+                except Exception as e:
+                    what = f"as_dict encode raised {type(e).__name__}: {e}"
+                    obs = f"exc:{type(e).__name__}"
+                if what:
+                    ctx.fail(f"{gen.py_ann(t)}: {what}",
+                             {"entry": "codec_encode_as_dict" if dia else "codec_encode", "source": fam.source(), "type": gen.py_ann(t), "input_src": gen.py_src(v),
+                              "observed": obs, "expected": "ok:" + gen.py_src(exp)}, {"kind": "encode-ref"})
+    finally:
+        ref.NT_AS_DICT = False
+
     # format dialects: exactly the declared native types stay unconverted; TOML drops None fields
     for fam, ns, t, ty, sg in tyoracle.schema_stream(ctx.rng, ctx.budget(60, 600)):
         vg = gen.ValueGen(ctx.rng, fam)
